@@ -13,7 +13,7 @@ cp -r "$here/edit" "$tmp/edit"
 for f in EditModel EditRun EditProofs EditFrame EditLaws EditParse; do run "$tmp/edit" coqc -Q . E $f.v; done
 echo "edit: ok"
 cp -r "$here/py2v" "$tmp/py2v"
-for f in Gen NixLex Refine NPathProofs SplitProofs; do run "$tmp/py2v" coqc $f.v; done
+for f in Gen NixLex Refine NPathProofs SplitProofs ScopeSel; do run "$tmp/py2v" coqc $f.v; done
 echo "py2v: ok"
 cp -r "$here/resolve" "$tmp/resolve"
 for f in ResolveCore ResolveProofs; do run "$tmp/resolve" coqc -Q . R $f.v; done
